@@ -175,7 +175,13 @@ class Ctx:
 
 
 def state_res(st):
-    return {"state": digest([st]), "text": hashlib.sha1(st.serialize().encode()).hexdigest()[:12]}
+    # `canon` is the state as a VALUE (fact set + fluent map): the insertion order of a successor's dict keys
+    # depends on the order in which the operator's effect groups (a set of address-hashed objects) were applied,
+    # so two operators for the same call may produce equal states with different key orders.
+    facts = sorted(p.untyped_representation for ps in st.state_predicates.values() for p in ps)
+    fluents = sorted((k, float(f.value).hex()) for k, f in st.state_fluents.items())
+    return {"state": digest([st]), "text": hashlib.sha1(st.serialize().encode()).hexdigest()[:12],
+            "canon": hashlib.sha1(json.dumps([facts, fluents, bool(st.is_init)]).encode()).hexdigest()[:12]}
 
 
 def text_res(t):
@@ -276,7 +282,12 @@ def execute(op, ctx, register=True):
         a = dom.actions[op["act"]]
         return text_res(str(a) + "|" + ",".join(a.parameter_names))
     if k == "export":
-        return text_res(DomainExporter().extract_domain(ctx.doms[op["dom"]]))
+        t = DomainExporter().extract_domain(ctx.doms[op["dom"]])
+        r = text_res(t)
+        # the exporter iterates sets of address-hashed objects: two parses of one file print their members in
+        # different orders.  `bag` (the multiset of tokens) is what is compared across different parses.
+        r["bag"] = hashlib.sha1(" ".join(sorted(t.replace("(", " ( ").replace(")", " ) ").split())).encode()).hexdigest()[:12]
+        return r
     if k == "triplet":
         dom = ctx.doms[op["dom"]]
         st = ctx.sts[op["st"]][0]
@@ -301,6 +312,17 @@ QUERY = {"applicable", "apply", "copy", "serialize", "typed_serialize", "state_o
 
 def strip(res):
     return {k: v for k, v in res.items() if k not in ("new",)}
+
+
+def strip_x(res):
+    """comparison across different parses of the same domain file"""
+    r = strip(res)
+    if "bag" in r:
+        r.pop("text", None)
+    if "canon" in r:
+        r.pop("text", None)
+        r.pop("state", None)
+    return r
 
 
 def run_history(job, wdir, shared_domains=None, oracle=True, watch=None):
@@ -350,8 +372,8 @@ def run_history(job, wdir, shared_domains=None, oracle=True, watch=None):
                 again = execute(st["op"], ctx, register=False)
             except Exception as e:  # noqa
                 again = {"raised": type(e).__name__, "msg": str(e)[:200]}
-            if strip(again) != strip(st["res"]):
-                mism.append({"step": i, "first": strip(st["res"]), "again": strip(again)})
+            if strip_x(again) != strip_x(st["res"]):
+                mism.append({"step": i, "first": strip_x(st["res"]), "again": strip_x(again)})
         after = ctx.protected_digests()
         out["repeat_mismatch"] = mism
         out["repeat_changed"] = sorted(n for n in before if before[n] != after.get(n))
@@ -405,7 +427,7 @@ def threads(job):
             sub = wdir / ("seq_%d" % t)
             sub.mkdir()
             out, _ = run_history(dict(job, ops=ops), sub, shared_domains=[d], oracle=False)
-            ref.append([strip(s.get("res", {})) for s in out["steps"]])
+            ref.append([strip_x(s.get("res", {})) for s in out["steps"]])
         fresh_digest = digest([DomainParser(dpath).parse_domain()])
         diffs, foreign, dom_changed = [], [], 0
         for rnd in range(job.get("rounds", 1)):
@@ -439,7 +461,7 @@ def threads(job):
                 th.join()
             sys.setswitchinterval(old)
             for t, out in enumerate(results):
-                got = [strip(s.get("res", {})) for s in out["steps"]]
+                got = [strip_x(s.get("res", {})) for s in out["steps"]]
                 if got != ref[t] or "crash" in out:
                     first = next((i for i, (a, b) in enumerate(zip(got, ref[t])) if a != b), None)
                     diffs.append({"round": rnd, "thread": t, "first_diff_step": first,
